@@ -87,6 +87,7 @@ type kase struct {
 	MemLen uint64            `json:"memlen,omitempty"`
 	Bound  uint64            `json:"bound,omitempty"` // loop programs: iterations the gas limit can pay for
 	Inner  string            `json:"inner,omitempty"` // read-only family: kind of the inner call made before the write attempt
+	Seq    *seqSpec          `json:"seq,omitempty"`   // part seq: the pair and its identities
 	To     string            `json:"to,omitempty"`    // top-level callee (hex address) when it is not the contract under test
 	Extra  map[string]string `json:"extra,omitempty"` // further contracts: hex address -> hex code
 }
@@ -909,6 +910,7 @@ func main() {
 			"(value) CALL/CALLCODE/AUTHCALL (plain and authorized)/CREATE/CREATE2 with the value operand over {0,1,2^255-1,2^255,2^256-1} x gas {0,max} x target {0, precompile 1, funded account} x in/out size {0,32} on both tables, each as the sandwich (memory empty/32B) and as a self-counting loop JUMPDEST <args> OP POP .. JUMP that must run out of gas before it exceeds gasLimit/(constant gas of one iteration) iterations; " +
 			"(jump) jump-analysis boundary programs PUSH1 t JUMP | PUSH1 1 PUSH1 t JUMPI, STOP filler, JUMPDEST after the header and before the tail, tail PUSHn (n in {none,1,2,7,8,9,15,16,17,24,31,32}) with k in {0,1,n-1,n} data bytes 0x5b, every total length 6..72, targets = both real JUMPDESTs (must succeed) and the first/last push-data byte (must be an invalid jump), as contract code and as init code; " +
 			"(readonly) for every write-class operation of the jump table (writes flag, TSTORE, CALL with value) a frame [inner STATICCALL/CALL/DELEGATECALL/CALLCODE to {returning contract, reverting contract, codeless account, precompile} or none]; OP(1,..) entered by evm.StaticCall directly, and by STATICCALL from wrappers at static nesting 1 and 2 (entered through evm.StaticCall and through evm.Call), on both tables: the frame must fail with write protection, return no gas, no logs, state root unchanged; " +
+			"(seq) non-initial state: every ordered pair (X,Y) of a 14-code fault alphabet (valid/invalid jumps in short and long codes whose classification of offset 96 differs, jump into push data, jump beyond code, JUMPI, stack under/overflow, invalid opcode, out of gas, revert, store, return) x identities {CALL to deployed code, CREATE init code, CREATE2 init code}^2 x driver entered by evm.Call or as constructor by evm.Create, both tables: Y after X in one top-level call must give the flag, return data and (CALL) gas cost of Y run first in a fresh EVM, and a failed Y the state of X followed by a canonical failing frame; " +
 			"(create) every init code of length <=2 through Create (gas set), CREATE and CREATE2 (sandwich), code-deposit programs for every gas limit in a dense range through Create and through CREATE with an endowment; " +
 			"(pre) each of the 18 precompiles x every input of length <=2 x gas set, modexp length-field triples over a 15-value set x 5 payloads, blake2f rounds/flag/length, 33 boundary lengths x 3 fillings, and CALL/STATICCALL/DELEGATECALL to each precompile with boundary in/out sizes; " +
 			"(gasfn) memorySize+dynamicGas of every memory-touching operation evaluated through a hook without allocating: every (offset,length) pair over a 17-value set up to 2^256-1 x other operands {0,1,max} x memory {0,32B}, and a 2^25-byte grid of offsets/lengths up to 2^37 with bisection at every decrease, the cheapest huge growth found is executed in a sandboxed child process. " +
@@ -957,6 +959,10 @@ func replay(c *fw.Ctx, raw json.RawMessage) {
 		r.bomb(&k)
 		return
 	}
+	if k.Entry == "seq" {
+		r.runSeq(k.Fork, k.Seq)
+		return
+	}
 	r.run(&k)
 }
 
@@ -979,6 +985,7 @@ func run(c *fw.Ctx) {
 		{"value", r.partValue},
 		{"jump", r.partJump},
 		{"readonly", r.partReadOnly},
+		{"seq", r.partSeq},
 		{"create", r.partCreate},
 		{"pre", r.partPrecompiles},
 		{"code", r.partCode},
